@@ -1077,6 +1077,42 @@ pub fn wide_docs(n: usize) -> Vec<MObj> {
 }
 
 /// The quick tier's universe: the full alphabets for everything but the (large) matrix family.
+/// nested blocks that contain a quantified key, next to other nested blocks on the same container
+/// field and joined by and/or/not: the shapes in which shake merges blocks on one field
+pub fn family_nestedq() -> Vec<RuleSpec> {
+    let lists: Vec<Val> = vec![
+        list(vec![st("a*"), st("?b")]),
+        list(vec![st("*b"), st("?^a"), st("b")]),
+        list(vec![int(1), st("a")]),
+        list(vec![st("a"), st("b")]),
+    ];
+    let qkeys = ["of(y, 1)", "of(y, 2)", "all(y)", "y", "of(x, 1)", "all(x)"];
+    let a_bodies: Vec<Vec<Entry>> = vec![
+        vec![e("n", map(vec![e("x", st("a"))]))],
+        vec![e("n", map(vec![e("x", st("a"))])), e("g", st("x"))],
+        vec![e("n", map(vec![e("y", st("?b"))]))],
+        vec![e("f", st("a"))],
+    ];
+    let c_body = vec![e("n", map(vec![e("x", st("b*"))]))];
+    let conds = ["A and B", "B and A", "A and B and C", "not (A and B)", "(A or C) and B", "A and not B"];
+    let mut out = vec![];
+    for q in qkeys {
+        for l in &lists {
+            let b_body = vec![e("n", map(vec![e(q, l.clone())]))];
+            for a in &a_bodies {
+                for c in conds {
+                    let mut idents = vec![("A".to_string(), Body::Map(a.clone())), ("B".to_string(), Body::Map(b_body.clone()))];
+                    if c.contains('C') {
+                        idents.push(("C".to_string(), Body::Map(c_body.clone())));
+                    }
+                    out.push(RuleSpec { idents, cond: c.to_string() });
+                }
+            }
+        }
+    }
+    out
+}
+
 pub fn universe_quick() -> Vec<RuleSpec> {
     let mut out = family_single(1);
     out.extend(family_bodies(1));
@@ -1087,6 +1123,7 @@ pub fn universe_quick() -> Vec<RuleSpec> {
     out.extend(family_castconds(0));
     out.extend(family_paths(0));
     out.extend(family_wide());
+    out.extend(family_nestedq());
     out
 }
 
@@ -1099,6 +1136,7 @@ pub fn universe(level: u8) -> Vec<RuleSpec> {
     out.extend(family_castconds(level));
     out.extend(family_paths(level));
     out.extend(family_wide());
+    out.extend(family_nestedq());
     out
 }
 
